@@ -9,7 +9,8 @@
     [-1] = None, [-2] = the call panicked, booleans 0/1. *)
 From Verif Require Import Base.Prelude Base.Enc Spec.ShortMsgObs Model.ShortMsg Model.PerChannel Model.Factory Model.CC14
   Model.Nrpn Model.Polling Spec.Canon Spec.MidiTable Spec.ScannerSpec Spec.CC14Spec Spec.NrpnSpec Spec.PollMonitor Spec.ConstSpec
-  Generated.CtrlConsts Generated.NewtypeTables Base.Cfg Model.Newtypes.
+  Generated.CtrlConsts Generated.NewtypeTables Generated.SerdeShapes Base.Cfg Model.Newtypes
+  Model.Serde.
 Open Scope Z_scope.
 
 Record verdict : Type := mkV { v_agree : bool; v_holds : bool; v_model : list Z }.
@@ -761,6 +762,229 @@ Definition check_170 (kind : Z) (timeout : N) (ops1 ops2 obs : list Z) : verdict
        listZ_eqb a b && listZ_eqb c d)
       model.
 
+(** * C19: deserialization *)
+(** JSON-like values as integers: 0 null | 1 b | 2 z | 3 n c1..cn (string) | 4 n v1..vn (array)
+    | 5 n (k c1..ck value)... (object) *)
+Fixpoint take_n {A} (n : nat) (l : list A) : list A * list A :=
+  match n, l with
+  | S n', x :: t => let '(a, b) := take_n n' t in (x :: a, b)
+  | _, _ => ([], l)
+  end.
+
+Fixpoint dec_json (fuel : nat) (l : list Z) : option (jval * list Z) :=
+  match fuel with
+  | O => None
+  | S f =>
+      match l with
+      | 0 :: t => Some (JNull, t)
+      | 1 :: b :: t => Some (JBool (Z.eqb b 1), t)
+      | 2 :: z :: t => Some (JInt z, t)
+      | 3 :: n :: t => let '(cs, r) := take_n (Z.to_nat n) t in Some (JStr (map nz cs), r)
+      | 4 :: n :: t =>
+          match
+            (fix elems (k : nat) (l : list Z) : option (list jval * list Z) :=
+               match k with
+               | O => Some ([], l)
+               | S k' =>
+                   match dec_json f l with
+                   | Some (v, r) =>
+                       match elems k' r with Some (vs, r') => Some (v :: vs, r') | None => None end
+                   | None => None
+                   end
+               end) (Z.to_nat n) t
+          with
+          | Some (vs, r) => Some (JArr vs, r)
+          | None => None
+          end
+      | 5 :: n :: t =>
+          match
+            (fix entries (k : nat) (l : list Z) : option (list (list N * jval) * list Z) :=
+               match k with
+               | O => Some ([], l)
+               | S k' =>
+                   match l with
+                   | kl :: t0 =>
+                       let '(cs, r0) := take_n (Z.to_nat kl) t0 in
+                       match dec_json f r0 with
+                       | Some (v, r) =>
+                           match entries k' r with
+                           | Some (es, r') => Some ((map nz cs, v) :: es, r')
+                           | None => None
+                           end
+                       | None => None
+                       end
+                   | [] => None
+                   end
+               end) (Z.to_nat n) t
+          with
+          | Some (es, r) => Some (JObj es, r)
+          | None => None
+          end
+      | _ => None
+      end
+  end.
+
+Fixpoint enc_json (v : jval) : list Z :=
+  match v with
+  | JNull => [0]
+  | JBool b => [1; zb b]
+  | JInt z => [2; z]
+  | JStr s => 3 :: Z.of_nat (length s) :: map zN s
+  | JArr l => 4 :: Z.of_nat (length l) :: flat_map enc_json l
+  | JObj l =>
+      5 :: Z.of_nat (length l) ::
+        flat_map (fun p => Z.of_nat (length (fst p)) :: map zN (fst p) ++ enc_json (snd p)) l
+  end.
+
+(** objects are compared up to the order of their entries (serde_json keeps them sorted by key) *)
+Fixpoint codes_ltb (a b : list N) : bool :=
+  match a, b with
+  | [], [] => false
+  | [], _ => true
+  | _, [] => false
+  | x :: a', y :: b' => N.ltb x y || (N.eqb x y && codes_ltb a' b')
+  end.
+
+Fixpoint insert_entry (e : list N * jval) (l : list (list N * jval)) : list (list N * jval) :=
+  match l with
+  | [] => [e]
+  | h :: t => if codes_ltb (fst e) (fst h) then e :: l else h :: insert_entry e t
+  end.
+
+Fixpoint canon_json (v : jval) : jval :=
+  match v with
+  | JArr l => JArr (map canon_json l)
+  | JObj l => JObj (fold_right (fun p acc => insert_entry (fst p, canon_json (snd p)) acc) [] l)
+  | x => x
+  end.
+
+Fixpoint shape_of (name : String.string) (l : list (String.string * String.string)) : String.string :=
+  match l with
+  | [] => String.EmptyString
+  | (n, s) :: t => if String.eqb n name then s else shape_of name t
+  end.
+
+Definition nt_de (tidx : nat) (v : jval) : option N :=
+  match nt_at tidx with
+  | Some (_, r, m) =>
+      de_nt (shape_of nt_shape_name serde_shapes)
+            (match prim_range r with Some (_, hi) => hi | None => -1 end) m v
+  | None => None
+  end.
+
+(** positions of the six types in the regenerated table *)
+Definition nt_index (name : String.string) : nat :=
+  (fix go (l : list (String.string * String.string * N)) (i : nat) : nat :=
+     match l with
+     | [] => i
+     | (n, _, _) :: t => if String.eqb n name then i else go t (S i)
+     end) newtype_defs O.
+
+Definition D_u4 := nt_de (nt_index name_U4).
+Definition D_u7 := nt_de (nt_index name_U7).
+Definition D_u14 := nt_de (nt_index name_U14).
+Definition D_channel := nt_de (nt_index name_Channel).
+Definition D_key := nt_de (nt_index name_KeyNumber).
+Definition D_cn := nt_de (nt_index name_ControllerNumber).
+
+Definition shape_raw := shape_of name_RawShortMessage serde_shapes.
+Definition shape_cc14 := shape_of name_ControlChange14BitMessage serde_shapes.
+Definition shape_pn := shape_of name_ParameterNumberMessage serde_shapes.
+Definition shape_smt := shape_of name_ShortMessageType serde_shapes.
+
+Definition zopt_list {A} (f : A -> list Z) (o : option A) : list Z :=
+  match o with Some a => 1 :: f a | None => [0] end.
+
+(** what the harness observes after a successful deserialization: the value's fields and the
+    results of the accessors that may panic on an invalid value *)
+Definition obs_raw (b : bytes) : list Z :=
+  enc_bytes b ++ [match g_type bytes raw_sb b with Ok t => zN (smt_code t) | Panic => ZPANIC end].
+Definition obs_cc14 (m : cc14msg) : list Z :=
+  [zN (cc_channel m); zN (cc_msb_cn m); zN (cc_value m);
+   match cc14_lsb_cn m with Ok l => zN l | Panic => ZPANIC end].
+Definition obs_pn (m : pnmsg) : list Z :=
+  enc_pn (Some m) ++
+  match pn_to_short_messages raw_fbu m MsbFirst with
+  | Ok l => flat_map enc_slot l
+  | Panic => [ZPANIC]
+  end.
+
+Definition model_190 (tidx : Z) (v : jval) : list Z :=
+  if Z.ltb tidx 6 then zopt_list (fun n => [zN n]) (nt_de (Z.to_nat tidx) v)
+  else match tidx with
+  | 10 => zopt_list (fun t => [zN (smt_code t)]) (de_smt shape_smt v)
+  | 11 => zopt_list (fun t => [zN (tct_code t)]) (de_tct v)
+  | 12 => zopt_list (fun d => [zdt d]) (de_datatype v)
+  | 13 => zopt_list enc_tcqf (de_tcqf D_u4 v)
+  | 14 => zopt_list enc_struct (de_structured D_u4 D_u7 D_u14 D_channel D_key D_cn v)
+  | 15 => zopt_list obs_raw (de_raw D_u7 shape_raw v)
+  | 16 => zopt_list obs_cc14 (de_cc14 D_u14 D_channel D_cn shape_cc14 v)
+  | _ => zopt_list obs_pn (de_pn D_u14 D_channel shape_pn v)
+  end.
+
+(** C19 decider on the implementation's observation: a deserialized value is one the checked
+    public constructors could have built *)
+Definition all_in (l : list Z) (lo hi : Z) : bool := forallb (fun z => Z.leb lo z && Z.leb z hi) l.
+
+Definition holds_190 (tidx : Z) (obs : list Z) : bool :=
+  match obs with
+  | [0] => true
+  | 1 :: f =>
+      negb (existsb (Z.eqb ZPANIC) f) &&
+      (if Z.ltb tidx 6 then
+         match nt_at (Z.to_nat tidx), f with
+         | Some (_, _, m), [v] => Z.leb 0 v && Z.leb v (zN m)
+         | _, _ => false
+         end
+       else match tidx, f with
+       | 10, [c] => match smt_of_code (nz c) with Some _ => Z.leb 0 c | None => false end
+       | 11, [c] => Z.leb 0 c && Z.leb c 3
+       | 12, [d] => Z.leb 0 d && Z.leb d 2
+       | 13, [i; x; y] => if Z.ltb i 7 then Z.leb 0 i && all_in [x] 0 15 else all_in [x] 0 1 && all_in [y] 0 3
+       | 14, [v; x; y; z] => struct_wf (dec_struct v x y z) && Z.leb 0 v && Z.leb v 22
+       | 15, [s0; a; b; _] => Z.leb 128 s0 && Z.leb s0 255 && all_in [a; b] 0 127
+       | 16, [c; n; x; _] => all_in [c] 0 15 && all_in [n] 0 31 && all_in [x] 0 16383
+       | 17, c :: n :: x :: r :: w :: d :: slots =>
+           all_in [c] 0 15 && all_in [n; x] 0 16383 &&
+           (if Z.eqb w 1 then Z.eqb d 0 else Z.leb x 127) &&
+           (* every emitted data byte is a valid 7-bit value *)
+           all_in slots (-1) 255 &&
+           (fix ok (l : list Z) : bool :=
+              match l with
+              | s0 :: a :: b :: t => (Z.eqb s0 ZNONE || (Z.leb a 127 && Z.leb b 127)) && ok t
+              | _ => true
+              end) slots
+       | _, _ => false
+       end)
+  | _ => false
+  end.
+
+(** tag 191: the natural representation of a valid value deserializes to an equal value *)
+Definition model_191 (tidx : Z) (f : list Z) : list Z :=
+  let fin := fun {A} (x : A) (ser : A -> jval) (de : jval -> option A) (eq : A -> A -> bool) =>
+               enc_json (canon_json (ser x)) ++ [match de (ser x) with Some y => zb (eq x y) | None => 0 end] in
+  match tidx, f with
+  | 13, [i; x; y] =>
+      let v := dec_tcqf i x y in
+      fin v ser_tcqf (de_tcqf D_u4) (fun a b => listZ_eqb (enc_tcqf a) (enc_tcqf b))
+  | 14, [v; x; y; z] =>
+      let m := dec_struct v x y z in
+      fin m ser_structured (de_structured D_u4 D_u7 D_u14 D_channel D_key D_cn)
+          (fun a b => listZ_eqb (enc_struct a) (enc_struct b))
+  | 15, [s0; a; b] =>
+      fin (nz s0, nz a, nz b) ser_raw (de_raw D_u7 shape_raw)
+          (fun a b => listZ_eqb (enc_bytes a) (enc_bytes b))
+  | 16, [c; n; x] =>
+      fin (mkCC14 (nz c) (nz n) (nz x)) ser_cc14 (de_cc14 D_u14 D_channel D_cn shape_cc14)
+          (fun a b => listZ_eqb (obs_cc14 a) (obs_cc14 b))
+  | 17, [c; n; x; r; w; d] =>
+      fin (mkPN (nz c) (nz n) (nz x) (Z.eqb r 1) (Z.eqb w 1) (dec_dt d)) ser_pn
+          (de_pn D_u14 D_channel shape_pn) (fun a b => listZ_eqb (enc_pn (Some a)) (enc_pn (Some b)))
+  | _, [x] =>
+      if Z.ltb tidx 6 then fin (nz x) jn (nt_de (Z.to_nat tidx)) N.eqb else [-99]
+  | _, _ => [-99]
+  end.
+
 Definition check (tag : Z) (inp obs : list Z) : verdict :=
   match tag, inp with
   | 10, [k; s0; a; c] => verdict_of obs (model_10 k (nz s0, nz a, nz c)) (spec_10 k (nz s0, nz a, nz c))
@@ -834,6 +1058,16 @@ Definition check (tag : Z) (inp obs : list Z) : verdict :=
       check_160 kind (nz timeout) prior msg obs
   | 161, [n] => check_161 (nz n) obs
   | 162, [idx] => check_162 (Z.to_nat idx) obs
+  | 190, tidx :: j =>
+      match dec_json 50 j with
+      | Some (v, []) =>
+          let model := model_190 tidx v in
+          mkV (listZ_eqb obs model) (holds_190 tidx obs) model
+      | _ => bad_record
+      end
+  | 191, tidx :: f =>
+      let model := model_191 tidx f in
+      mkV (listZ_eqb obs model) (Z.eqb (last obs 0) 1) model
   | 170, kind :: timeout :: n1 :: rest =>
       let '(ops1, ops2) := take_ops (Z.to_nat n1) rest in
       check_170 kind (nz timeout) ops1 ops2 obs
